@@ -54,8 +54,8 @@ _WN = ('Bounded: 2-3 modules, stated BFS depth and deviation budget (armed re-en
        'Real kernel pipes/epoll; time is virtual. Cross-module order is never assumed. ASan/UBSan build; allocator and descriptor ledgers are exact per execution.')
 _WORLD_TXT = {
  'C01': 'Lifecycle histories (register with every eval/start callback behaviour, start/pause/resume/stop/deregister legal and illegal in every state, poison pill, tell, dispatch, quit, re-entrant stop/deregister/pause/quit/tell armed inside on_eval/on_start/on_stop/on_evt) are enumerated; the monitor checks documented edges, refusals without effect, callback pairing, no handler unless RUNNING, evaluation passes (every IDLE module with absent/true eval is started whatever other evals return) and the running-module count after every call.',
- 'C02': 'Populations in every state mix, literal/regex subscriptions, tell/publish/broadcast with and without AUTOFREE, pause/resume/stop/deregister/unsubscribe of recipients, loop steps, quit and loop end, injected full mailbox: the monitor computes the eligible set at send time, matches every delivery against a pending message (sender, topic, payload pointer, system flag), checks obligations at quiescence and loop end, discards, and exactly-once release of auto-free payloads through the allocator ledger.',
- 'C03': 'Descriptor and timer sources plus messages on two modules, every subset/order of ready sources per poll (by interleaving make-readable/advance with dispatch), quit/stop/pause armed in handlers, errno left behind by handlers, injected EINTR/EBADF: every readiness must reach its owner once with the registration user pointer, one-shot sources fire once and disappear, the dispatch-driven loop returns only for stated reasons with the requested code.',
+ 'C02': 'Populations in every state mix, literal/regex subscriptions, tell/publish/broadcast with and without AUTOFREE, pause/resume/stop/deregister/unsubscribe of recipients, loop steps, quit and loop end, injected full mailbox: the monitor computes the eligible set at send time, matches every delivery against a pending message (sender, topic, payload pointer, system flag), checks obligations at quiescence and loop end, discards, and exactly-once release of auto-free payloads through the allocator ledger. Fixed capacity runs (1..9000 pending messages, plain and AUTOFREE) exercise the real 8192-pointer pipe.',
+ 'C03': 'Descriptor and timer sources plus messages on two modules, every subset/order of ready sources per poll (by interleaving make-readable/advance with dispatch), quit/stop/pause armed in handlers, errno left behind by handlers, injected EINTR/EBADF: every readiness must reach its owner once with the registration user pointer, one-shot sources fire once and disappear, the dispatch-driven loop returns only for stated reasons with the requested code. A second, in-process part enumerates every program of <=4 environment/user steps x <=1 scripted handler reaction and runs each through the blocking m_ctx_loop() (environment acting inside the blocking poll) and through m_ctx_dispatch(): deliveries, stop callbacks and return code must be identical.',
  'C04': 'The union alphabet of the core world (lifecycle, registration with refusing start, tell/publish/broadcast with AUTOFREE, poison pill, subscriptions, descriptor and timer sources with AUTOCLOSE/ONESHOT, stash/unstash, become, batching, user references on modules and retained events released in every order, injected full mailbox) with up to two armed re-entrant callback actions (stop/deregister/pause/unsubscribe/tell/publish/stash/unstash/retain/quit in any callback): every execution runs under ASan/UBSan with the ledger allocator, ends with the teardown probe (context deregistered, every user reference dropped) and must leave no outstanding allocation, no double/foreign free, zombies answering name/state queries while referenced.',
  'C07': 'Context register/deregister/finalize/dispatch/quit interleaved with module registration, lifecycle and user references, context calls on a thread without context, deregistration armed inside callbacks: second register EEXIST, teardown stops and zombifies every module (on_stop iff RUNNING/PAUSED), looping context refuses, automatic release of non persistent contexts (idle: at once; looping: at loop stop), finalize gate, fresh register after release; allocator ledger empty after teardown.',
  'C08': 'Two senders/recipients, tell/publish/broadcast/system notifications/poison pill interleaved with dispatch steps, pause/resume, batch size changes and loop stop/restart: per recipient the delivered send indices must be increasing (also inside one batch and in the final flush); a pill takes effect only after everything sent earlier and nothing sent later is delivered.',
